@@ -22,8 +22,13 @@ static const size_t SZ[] = { 0, 1, 4, 8, 31, 32, 33, 40, 64, 65, 1023, 1024,
 #define NSZ (sizeof(SZ) / sizeof(SZ[0]))
 static const size_t HS[] = { 0, 1, 4, 8, 59, 60, 64, 65 };
 #define NHS (sizeof(HS) / sizeof(HS[0]))
+// (the last three cannot be allocated: the call has to fail and leave the message alone - sizes whose
+// sum with the head room wraps around are the interesting ones)
+#define HUGE(n) ((n) > ((size_t) 1 << 40))
 static const size_t RS[] = { 0, 1, 31, 32, 33, 64, 1023, 1024, 1025, 2048,
 	4096 };
+static const size_t HG[] = { SIZE_MAX - 8, SIZE_MAX - 40, SIZE_MAX / 2 + 9 };
+#define HGCODE 0xfff0 // op arguments HGCODE+i stand for HG[i]
 #define NRS (sizeof(RS) / sizeof(RS[0]))
 
 enum {
@@ -79,6 +84,10 @@ mk_ops(void)
 		OPS[NOPS++] = (opd){ O_REALLOC, (uint16_t) SZ[i] };
 	for (size_t i = 0; i < NRS; i++)
 		OPS[NOPS++] = (opd){ O_RESERVE, (uint16_t) RS[i] };
+	for (int i = 0; i < 3; i++) {
+		OPS[NOPS++] = (opd){ O_REALLOC, (uint16_t) (HGCODE + i) };
+		OPS[NOPS++] = (opd){ O_RESERVE, (uint16_t) (HGCODE + i) };
+	}
 	OPS[NOPS++] = (opd){ O_CLEAR, 0 };
 	for (int k = O_HAPPEND; k <= O_HCHOP; k++)
 		for (size_t i = 0; i < NHS; i++)
@@ -118,8 +127,9 @@ hist_str(const hist *h, int upto)
 	size_t      o = 0;
 	b[0]          = 0;
 	for (int i = 0; i < upto && o + 40 < sizeof(b); i++)
-		o += (size_t) snprintf(b + o, sizeof(b) - o, "%s%s(%u)", i ? " " : "",
-		    OPN[OPS[h->op[i]].kind], OPS[h->op[i]].arg);
+		o += (size_t) snprintf(b + o, sizeof(b) - o, "%s%s(%zu)", i ? " " : "",
+		    OPN[OPS[h->op[i]].kind],
+		    OPS[h->op[i]].arg >= HGCODE ? HG[OPS[h->op[i]].arg - HGCODE] : (size_t) OPS[h->op[i]].arg);
 	return b;
 }
 
@@ -130,7 +140,7 @@ apply(nng_msg **mp, model *M, const opd *o, int step)
 {
 	nng_msg *m = *mp;
 	uint8_t  data[LMAX + 16];
-	size_t   n = o->arg;
+	size_t   n = o->arg >= HGCODE ? HG[o->arg - HGCODE] : o->arg;
 	int      rv, want;
 	uint64_t v = 0, got = 0;
 	for (size_t i = 0; i < n && i < sizeof(data); i++)
@@ -259,6 +269,15 @@ apply(nng_msg **mp, model *M, const opd *o, int step)
 	} break;
 	case O_REALLOC:
 		rv = nng_msg_realloc(m, n);
+		if (HUGE(n)) {
+			if (rv == 0) {
+				snprintf(errbuf, sizeof(errbuf),
+				    "realloc(%zu) succeeded: length %zu, capacity %zu", n, nng_msg_len(m),
+				    nng_msg_capacity(m));
+				return -1;
+			}
+			break; // refused: nothing may have changed (compared below)
+		}
 		if (rv != 0) {
 			snprintf(errbuf, sizeof(errbuf), "realloc(%zu) -> %d", n, rv);
 			return -1;
@@ -273,6 +292,8 @@ apply(nng_msg **mp, model *M, const opd *o, int step)
 		break;
 	case O_RESERVE:
 		rv = nng_msg_reserve(m, n);
+		if (HUGE(n) && rv != 0)
+			break; // refused: nothing may have changed (compared below)
 		if (rv != 0) {
 			snprintf(errbuf, sizeof(errbuf), "reserve(%zu) -> %d", n, rv);
 			return -1;
